@@ -263,6 +263,16 @@ func (a *align) Clear() {
 	a.length = -1
 }
 
+// FilterLength removes sequences whose length is <minlength or >maxlength
+// (see SeqBag.FilterLength). An alignment that becomes empty has no length anymore.
+func (a *align) FilterLength(minlength, maxlength int) (err error) {
+	err = a.seqbag.FilterLength(minlength, maxlength)
+	if len(a.seqs) == 0 {
+		a.length = -1
+	}
+	return
+}
+
 // Length returns the current length of the alignment
 func (a *align) Length() int {
 	return a.length
